@@ -26,7 +26,7 @@ CHECKS = {
             "Restart points, open modes, by-name vs by-list opening, list permutations and directory enumeration order are drawn by the simulator; the outcome table of the mode contract, the directory listing/hashes before and after each open, discard semantics and the reopened view are checked against a model."),
     "C04": ("fileset", "fault_enumeration", "5.C04",
             "storage/shipping fault enumeration on closed records: every structural mutation plus sampled (thorough: exhaustive for small records) payload corruptions, each opened in its own process and compared with an independent chain predicate",
-            "For each seeded record all structural faults (remove/duplicate each element, drop newest j, swap/add fork or foreign container, rotations, manifest faults) are enumerated and payload faults (bit flip, insert, remove, truncate, extend) are sampled; expected accept/reject and the expected view come from the simulator's own record of how the files were made."),
+            "For each seeded record all structural faults (remove/duplicate each element, drop newest j, swap/add fork or foreign container, rotations, manifest faults) are enumerated and payload faults (bit flip, insert, remove, truncate, extend) are sampled; expected accept/reject and the expected view come from the simulator's own record of how the files were made. Also: the same corruptions below an unfinished (uncommitted) patch, base-less sets merged through allow_baseless, and a phase that keeps one process alive across a first open and a later corruption (state cached between opens)."),
     "C05": ("ih5store", "exploration", "5.C05",
             "seeded simulation with merge ('compaction') at arbitrary points of a history, follow-up patches of the source applied to the merged container, source frame conditions",
             "merge_files is issued at seeded points (committed -> must succeed, uncommitted -> must be refused); merged tree, identity fields, manifest, unchanged source (ih5_meta, view, bytes via the C02 monitor) and [merged]+later source patches are checked."),
@@ -35,31 +35,31 @@ CHECKS = {
             "The writer process is killed by the LD_PRELOAD shim at the k-th write/pwrite/ftruncate/open/unlink under the record directory, optionally after a partial write; the next epoch checks that committed files are byte-identical, the committed subset opens with the last acknowledged state, and the complete set fails / is recognisably uncommitted / shows the in-flight commit. Thorough tier enumerates every crash point of each sampled history."),
     "C10": ("sites", "exploration", "5.C10",
             "two-site simulation (repository site with the real record, packer site with manifest-only stub) over a lossy/duplicating/delaying transport; stub-made patch vs direct update",
-            "A stub is created from the latest manifest, an existence-based update history is applied once via the stub and once directly to a clone; skeleton equality, data absence in the stub, merge refusal, acceptance of the patch on the real chain, view equality, manifest/user-block consistency after every commit and persistence of manifest extensions are checked; transport faults (delay past an advance of the real record, duplication, corruption) must be refused."),
+            "A stub is created from the latest manifest, an existence-based update history is applied once via the stub and once directly to a clone; skeleton equality, data absence in the stub, merge refusal, acceptance of the patch on the real chain, view equality, manifest/user-block consistency after every commit and persistence of manifest extensions are checked; transport faults (delay past an advance of the real record, duplication, corruption) must be refused. Site L keeps its working directory between updates (stale sidecars), a stub patch may be finished in a second session, and the stub set must not merge through either record class."),
     "C06": ("container", "exploration", "5.C06",
             "seeded container histories on three drivers in lock-step; independent raw-tree TOC oracle after every operation; fresh container vs incremental index after reopen",
             "After every owner operation (successful or failed) an oracle that shares no code with container/interface.py walks the raw tree and checks the TOC<->metadata bijection, schema/package records and absence of empty bookkeeping groups; after reopen a fresh MetadorContainer must report the same index."),
     "C07": ("container", "exploration", "5.C07",
             "seeded container histories with a dict model of attached metadata; sampled get/query probes compared with a brute-force scan using the plugin system's parent paths",
-            "Model node -> {schema -> object}; after every op sampled meta[...] / get(parent) / in / keys and query(schema, version) over start nodes are compared with the model."),
+            "Model node -> {schema -> object}; after every op sampled meta[...] / get(parent) / in / keys and query(schema, version) over start nodes are compared with the model (objects compared code point by code point). Metadata operations also go through node.meta interfaces that are kept over several operations and mixed with fresh ones."),
     "C08": ("container", "exploration", "5.C08",
             "seeded histories mixing data and metadata ops; listings compared with a plain tree that saw only the user ops; reserved-path probes over every path-taking protocol method",
-            "Visibility: keys/len/iter/in/visit/visititems of every group equal those of the plain reference; rejection: every path-taking method x reserved path variants must raise and leave the raw tree unchanged."),
+            "Visibility: keys/len/iter/in/visit/visititems of every group equal those of the plain reference; rejection: every path-taking method x reserved path variants (str and bytes spellings, link values, group-object destinations with reserved names) must raise and leave the raw tree unchanged."),
     "C09": ("container", "exploration", "5.C09",
             "the same seeded op sequence through h5py.File, IH5Record and IH5MFRecord drivers in lock-step with patch boundaries/reopens on the IH5 realisations",
-            "Per-step success flags, user-visible dump, metadata JSON per node and query answers must agree on the three drivers."),
+            "Per-step success flags, user-visible dump, metadata JSON per node and query answers must agree on the three drivers; includes unstorable values, lookups through datasets, replace-then-relocate and attribute overwrite-then-delete chains inside one patch, copies of node objects of a second container."),
     "C15": ("container", "exploration", "5.C15",
             "restricted actors holding long-lived handles while the owner mutates the container; navigation chains x attempts",
-            "Restricted actors (every flag combination) obtain handles at seeded moments, compose navigation chains and attempt mutating/reading/upward operations; acl monotonicity, refusal with unchanged raw tree, no data leak through skel_only, no escape from local_only are checked."),
+            "Restricted actors (every flag combination) obtain handles at seeded moments, compose navigation chains and attempt mutating/reading/upward operations; acl monotonicity, refusal with unchanged raw tree, no data leak through skel_only (including the sequence protocol of datasets), no escape from local_only are checked; read-only grants are placed on datasets and above nodes with metadata and followed by a sweep of every mutation."),
     "C17": ("container", "exploration", "5.C17",
             "pack_file of boundary-length byte strings followed by seeded container histories on three drivers",
-            "node[()] bytes, contentSize and sha256 are compared with the source file at every later step; the deletion-marker value must be rejected on IH5 drivers with the TOC unchanged."),
+            "node[()] bytes, contentSize and sha256 are compared with the source file at every later step; the deletion-marker value must be rejected on IH5 drivers in every spelling with the TOC unchanged. Sources keep a pinned mtime and reuse three paths; embedded files are copied in from a second container; file metadata found at a node must describe the node's bytes."),
     "C20": ("container", "exploration", "5.C20",
             "seeded container histories over installed and harness-registered schema families; embedded schema info vs plugin system, Draft-7 validation of every stored object",
             "After every op and on the reopened container: embedded JSON Schema exists and validates each stored object, parent chain and provider equal the plugin system's."),
     "C19": ("dirscan", "exploration", "5.C19",
             "directory hashing under a simulated hostile file system: seeded enumeration order, timestamps and short reads; model trees and one-edit pairs",
-            "dir_hashsums is run on materialised model trees with a permuting rglob and short-read streams; results must equal the model's expected tree, hence equal models give equal trees and one-edit pairs differ; out-of-directory links must be rejected."),
+            "dir_hashsums is run on materialised model trees with a permuting rglob and short-read streams; results must equal the model's expected tree, hence equal models give equal trees and one-edit pairs differ (also under the library's own tree comparison); edits include case-only and NFC/NFD renames and retargets and in-place edits that keep size and mtime; out-of-directory links must be rejected."),
 }
 
 def main():
